@@ -7,7 +7,12 @@
 (* may be executed; reverted calls leave no trace; after every successful  *)
 (* call (and initially) the invariant function of the test contract must   *)
 (* hold; an assertion failure (Panic(1)) inside a target function is       *)
-(* itself a reported violation (a "probe").                                *)
+(* itself a reported violation (a "probe").  Time: every call happens at a *)
+(* block timestamp that is not smaller than that of the previous call      *)
+(* (case field tsdom = the timestamps to choose from; the targets only     *)
+(* compare timestamps with each other, so a domain of depth+1 values is    *)
+(* complete); with firstAtSetup the first call happens at setUp's own      *)
+(* timestamp, which is what halmos explores (recorded finding).            *)
 (*                                                                         *)
 (* A transaction is one atomic action here: Evm!Run iterates the small-step *)
 (* machine to the end of the message.  TLC's own breadth-first search over *)
@@ -26,9 +31,10 @@ VARIABLES cid,      \* the case
           depth,    \* number of calls made
           seq,      \* the calls made (witness)
           broken,   \* "" | "invariant" | "probe"
-          ncr       \* CREATE counter carried across messages
-vars == <<cid, world, depth, seq, broken, ncr>>
-view == <<cid, world, depth, broken>>
+          ncr,      \* CREATE counter carried across messages
+          now       \* block timestamp of the latest call (setUp's at the beginning)
+vars == <<cid, world, depth, seq, broken, ncr, now>>
+view == <<cid, world, depth, broken, now>>
 
 SeqToMap(s, K(_), V(_)) ==
     [k \in {K(s[i]) : i \in 1..Len(s)} |-> V(s[CHOOSE i \in 1..Len(s) : K(s[i]) = k])]
@@ -43,10 +49,12 @@ Env0(c) == [coinbase |-> c.env.coinbase, timestamp |-> c.env.timestamp, number |
             basefee |-> c.env.basefee, createBase |-> c.env.createBase,
             opaque |-> {c.env.opaque[i] : i \in 1..Len(c.env.opaque)},
             cheatAddrs |-> {c.env.cheatAddrs[i] : i \in 1..Len(c.env.cheatAddrs)},
-            cheats |-> CheatTable, oracle |-> c.env.oracle, assertMode |-> c.env.assertMode]
+            cheats |-> CheatTable, oracle |-> c.env.oracle, assertMode |-> c.env.assertMode,
+            symstore |-> {c.env.symstore[i] : i \in 1..Len(c.env.symstore)}, symmask |-> c.env.symmask]
 
 \* run one message to completion from world w
-Exec1(c, w, n, tx) == Run([InitMachine(w, Env0(c), tx) EXCEPT !.ncreated = n])
+ExecAt(c, w, n, tx, t) == Run([InitMachine(w, [Env0(c) EXCEPT !.timestamp = t], tx) EXCEPT !.ncreated = n])
+Exec1(c, w, n, tx) == ExecAt(c, w, n, tx, c.env.timestamp)
 
 RECURSIVE RunPre(_, _, _, _)
 \* the deployment and setUp messages, in order; result: <<world, ncreated, allOk>>
@@ -60,8 +68,8 @@ IsPanic1(r) == r.status = "done" /\ ~r.result.ok /\ r.result.kind = "Revert" /\ 
 IsFail(r) == r.status = "done" /\ r.result.kind = "Fail"
 
 \* does the invariant function fail in world w ?
-InvBroken(c, w, n) ==
-    LET r == Exec1(c, w, n, c.inv)
+InvBroken(c, w, n, t) ==
+    LET r == ExecAt(c, w, n, c.inv, t)
     IN IsPanic1(r) \/ IsFail(r)
 
 Init ==
@@ -71,9 +79,41 @@ Init ==
        IN /\ Assert(p[3], <<"deployment or setUp failed on the reference machine", c.id>>)
           /\ world = p[1]
           /\ ncr = p[2]
-          /\ broken = IF InvBroken(c, p[1], p[2]) THEN "invariant" ELSE ""
+          /\ broken = IF InvBroken(c, p[1], p[2], c.env.timestamp) THEN "invariant" ELSE ""
+          /\ now = c.env.timestamp
     /\ depth = 0
     /\ seq = <<>>
+
+-----------------------------------------------------------------------------
+(* Which calls an invariant run makes: Foundry's target/exclude rules over the values returned by  *)
+(* the test contract's getters (case field filters) and the deployed contracts with their ABIs.     *)
+SetOf(s) == {s[i] : i \in 1..Len(s)}
+\* selectors listed for address a (several entries for one address accumulate)
+SelsFor(l, a) == UNION {SetOf(l[i].sels) : i \in {j \in 1..Len(l) : l[j].addr = a}}
+\* target contracts: targetContracts() if given, else every deployed contract; minus excludeContracts();
+\* plus every contract named by targetSelectors(); the test contract itself only when it is targeted explicitly
+TargetAddrs(c) ==
+    LET tc == SetOf(c.filters.tContracts)
+        base == IF tc = {} THEN {c.deployed[i].addr : i \in 1..Len(c.deployed)} \cup {c.test} ELSE tc
+        named == {c.filters.tSelectors[i].addr : i \in 1..Len(c.filters.tSelectors)}
+        all == (base \ SetOf(c.filters.xContracts)) \cup named
+    IN IF c.test \in tc \/ SelsFor(c.filters.tSelectors, c.test) # {} THEN all ELSE all \ {c.test}
+\* functions called on a target: the targeted selectors if any (excludeSelectors is then ignored), else all but
+\* the excluded ones, else every function that may change the state (not view / pure)
+TargetFns(c, d) ==
+    LET ts == SelsFor(c.filters.tSelectors, d.addr)
+        xs == SelsFor(c.filters.xSelectors, d.addr)
+        all == {d.fns[i] : i \in 1..Len(d.fns)}
+    IN IF ts # {} THEN {f \in all : f.sel \in ts}
+       ELSE IF xs # {} THEN {f \in all : f.sel \notin xs /\ ~f.view}
+       ELSE {f \in all : ~f.view}
+\* senders: targetSenders() minus excludeSenders() if that is not empty; else anyone not excluded
+Senders(c) ==
+    LET eff == SetOf(c.filters.tSenders) \ SetOf(c.filters.xSenders)
+    IN IF eff # {} THEN eff ELSE SetOf(c.senders) \ SetOf(c.filters.xSenders)
+\* the calls of the case: records [addr, f]
+Calls(c) == UNION {{[addr |-> c.deployed[i].addr, f |-> f] : f \in TargetFns(c, c.deployed[i])} :
+                    i \in {j \in 1..Len(c.deployed) : c.deployed[j].addr \in TargetAddrs(c)}}
 
 \* all argument tuples of length n over the argument domain of the case
 RECURSIVE Tuples(_, _)
@@ -85,21 +125,23 @@ TargetCall ==
     LET c == Cases[cid]
     IN /\ broken = ""
        /\ depth < c.depth
-       /\ \E ti \in 1..Len(c.targets) :
-            LET t == c.targets[ti]
-            IN \E fi \in 1..Len(t.fns) :
-                 LET f == t.fns[fi]
-                 IN \E args \in Tuples({c.argdom[i] : i \in 1..Len(c.argdom)}, f.nargs) :
-                    \E si \in 1..Len(c.senders) : \E vi \in 1..Len(f.values) :
-                      LET tx == [to |-> t.addr, caller |-> c.senders[si], origin |-> c.senders[si], value |-> f.values[vi],
+       /\ \E cl \in Calls(c) :
+            LET tg == cl  f == cl.f
+            IN \E args \in Tuples({c.argdom[i] : i \in 1..Len(c.argdom)}, f.nargs) :
+                    \E snd \in Senders(c) : \E vi \in 1..Len(f.values) : \E tsi \in 1..Len(c.tsdom) :
+                      LET t == c.tsdom[tsi]
+                          tx == [to |-> tg.addr, caller |-> snd, origin |-> snd, value |-> f.values[vi],
                                  data |-> f.sel \o Flat(args), static |-> FALSE, create |-> FALSE, transfer |-> TRUE]
-                          r == Exec1(c, world, ncr, tx)
-                          call == [to |-> t.addr, sel |-> f.sel, args |-> args, sender |-> c.senders[si], value |-> f.values[vi]]
-                      IN /\ r.status = "done"
+                          r == ExecAt(c, world, ncr, tx, t)
+                          call == [to |-> tg.addr, sel |-> f.sel, args |-> args, sender |-> snd, value |-> f.values[vi], ts |-> t]
+                      IN /\ ~WLt(t, now)                                   \* non-decreasing timestamps
+                         /\ (c.firstAtSetup /\ depth = 0) => t = now
+                         /\ now' = t
+                         /\ r.status = "done"
                          /\ \/ /\ r.result.ok
                                /\ world' = r.world
                                /\ ncr' = r.ncreated
-                               /\ broken' = IF InvBroken(c, r.world, r.ncreated) THEN "invariant" ELSE ""
+                               /\ broken' = IF InvBroken(c, r.world, r.ncreated, t) THEN "invariant" ELSE ""
                             \/ /\ IsPanic1(r) \/ IsFail(r)
                                /\ world' = world
                                /\ ncr' = ncr
@@ -113,5 +155,8 @@ Next == TargetCall
 Spec == Init /\ [][Next]_vars
 
 \* the initial verdicts are printed through this (always true) invariant on initial states
+\* ... and the resolved set of calls of every case (compared with the calls halmos reports)
+CallsReport == depth = 0 => PrintT("JREC" \o ToJson([id |-> Cases[cid].id, calls |-> {[addr |-> cl.addr, sel |-> cl.f.sel] : cl \in Calls(Cases[cid])},
+                                                     senders |-> Senders(Cases[cid])]))
 InitReport == (depth = 0 /\ broken # "") => PrintT("JREC" \o ToJson([id |-> Cases[cid].id, broken |-> broken, seq |-> <<>>]))
 =============================================================================
